@@ -399,6 +399,19 @@ impl State {
         )
     }
 
+    /// Returns true while the local side has not yet sent its (final) headers
+    /// on a stream the peer opened, i.e. interim (1xx) responses may still be
+    /// sent.
+    pub fn is_send_awaiting_headers(&self) -> bool {
+        matches!(
+            self.inner,
+            Open {
+                local: AwaitingHeaders,
+                ..
+            } | HalfClosedRemote(AwaitingHeaders)
+        )
+    }
+
     /// Returns true when the stream is in a state to receive headers
     pub fn is_recv_headers(&self) -> bool {
         matches!(
